@@ -412,7 +412,7 @@ def harnesses(tier):
                      "documented errors: ValueError, SeedNodeDeletionException",
                      "add_child/insert_child add fresh nodes (moving a subtree is done with the parent_node setter)"],
         outside=["histories longer than 2", "trees beyond the node bound"],
-        classify=classify, shard_budget=15.0 if tier == "quick" else None)]
+        classify=classify)]
     # depth-2
     n2 = 4 if tier == "quick" else 5
     shards2 = []
